@@ -199,9 +199,10 @@ def subscribe (ch : Chan) : Chan :=
   { ch with subRpc := true, subBc := true, cleanups := ch.cleanups ++ [.removeRpc, .removeBc] }
 
 /-- `StateMachineMeta.__call__`: enter the initial state (announced as `state_changed.None.created`), then `init()`.
+    `nfut` is the number of external awaitables of the process-control model's initial configuration.
     When the first broadcast raises a non-tolerated exception the constructor raises (`failed = some 0`). -/
-def create (O : Oracle) (name : String) (pid : String := "pid") : Cfg :=
-  let p := PMF.init name
+def create (O : Oracle) (nfut : Nat) (pid : String := "pid") : Cfg :=
+  let p := PMF.init nfut
   let ch := announce O { pid := pid } [] p.entered.reverse
   { p := p, ch := if ch.failed.isSome then ch else subscribe ch }
 
@@ -322,5 +323,18 @@ def owed (pid : String) : List Label → List Bc
 def isOk : BOut → Bool
   | .ok => true
   | _ => false
+
+/-! ### the program corpus of this component (sync chains, async steps, wait/resume, failing steps) -/
+def progOf : String → Prog
+  | "Sync2" => fun fn _ _ _ => if fn = 0 then ⟨0, .ret (.cont 1 [1] [(0, 2)])⟩ else ⟨0, .ret (.stop (some 3) true)⟩
+  | "Sync4" => fun fn _ _ _ => if fn < 3 then ⟨0, .ret (.cont (fn + 1) [] [])⟩ else ⟨0, .ret (.stop (some 3) true)⟩
+  | "Async2" => fun fn _ _ _ => if fn = 0 then ⟨2, .ret (.cont 1 [] [])⟩ else ⟨1, .ret (.stop (some 3) true)⟩
+  | "Async6" => fun fn _ _ _ => if fn = 0 then ⟨5, .ret (.cont 1 [] [])⟩ else ⟨4, .ret (.stop (some 3) true)⟩
+  | "Waiter" => fun fn _ _ _ => if fn = 0 then ⟨0, .ret (.wait 1)⟩ else ⟨0, .ret (.stop (some 7) true)⟩
+  | "WaitAsync" => fun fn _ _ _ => if fn = 0 then ⟨1, .ret (.wait 1)⟩ else ⟨1, .ret (.stop (some 7) true)⟩
+  | "WaitAsync4" => fun fn _ _ _ => if fn = 0 then ⟨4, .ret (.wait 1)⟩ else ⟨4, .ret (.stop (some 7) true)⟩
+  | "Failing" => fun _ _ _ _ => ⟨1, .raise (.user 0)⟩
+  | "Failing5" => fun _ _ _ _ => ⟨5, .raise (.user 0)⟩
+  | _ => fun _ _ _ _ => ⟨0, .ret (.stop none true)⟩
 
 end Comms
